@@ -32,15 +32,23 @@ func (ctl *HTTPGroupController) Register(
 	routeConfig vhost.RouteConfig,
 ) (err error) {
 	indexKey := group
-	ctl.mu.Lock()
-	g, ok := ctl.groups[indexKey]
-	if !ok {
-		g = NewHTTPGroup(ctl)
-		ctl.groups[indexKey] = g
-	}
-	ctl.mu.Unlock()
+	for {
+		ctl.mu.Lock()
+		g, ok := ctl.groups[indexKey]
+		if !ok {
+			g = NewHTTPGroup(ctl)
+			ctl.groups[indexKey] = g
+		}
+		ctl.mu.Unlock()
 
-	return g.Register(proxyName, group, groupKey, routeConfig)
+		err = g.Register(proxyName, group, groupKey, routeConfig)
+		if err == errGroupClosed {
+			// the last member left between the lookup and the join; the group has
+			// been removed from the controller, look it up (or create it) again
+			continue
+		}
+		return err
+	}
 }
 
 func (ctl *HTTPGroupController) UnRegister(proxyName, group string, _ vhost.RouteConfig) {
@@ -70,7 +78,9 @@ type HTTPGroup struct {
 	pxyNames    []string
 	index       uint64
 	ctl         *HTTPGroupController
-	mu          sync.RWMutex
+	// closed is set when the last member left: the group is dead and must not be joined again
+	closed bool
+	mu     sync.RWMutex
 }
 
 func NewHTTPGroup(ctl *HTTPGroupController) *HTTPGroup {
@@ -87,6 +97,9 @@ func (g *HTTPGroup) Register(
 ) (err error) {
 	g.mu.Lock()
 	defer g.mu.Unlock()
+	if g.closed {
+		return errGroupClosed
+	}
 	if len(g.createFuncs) == 0 {
 		// the first proxy in this group
 		tmp := routeConfig // copy object
@@ -134,8 +147,9 @@ func (g *HTTPGroup) UnRegister(proxyName string) (isEmpty bool) {
 		}
 	}
 
-	if len(g.createFuncs) == 0 {
+	if len(g.createFuncs) == 0 && !g.closed {
 		isEmpty = true
+		g.closed = true
 		g.ctl.vhostRouter.Del(g.domain, g.location, g.routeByHTTPUser)
 	}
 	return
